@@ -44,6 +44,7 @@ type Call struct {
 	ID      int
 	ResTy   *Ty    // result type when it feeds an outer call
 	Pkg     string // "" = p, "q"
+	Pair    *Call  // a second single-result call rendered on the same source line
 }
 
 func (w *World) prefixOf(plugin string) string {
@@ -112,6 +113,18 @@ func (w *World) renderCall(c *Call, from string) string {
 	lhs := ""
 	if c.NRes > 0 {
 		lhs = strings.Repeat("_, ", c.NRes-1) + "_ = "
+	}
+	if c.Pair != nil && c.NRes == 1 && c.Pair.NRes == 1 {
+		// two calls on one source line
+		var ps2 []string
+		collectParams(c.Pair, from, &ps2, map[string]bool{})
+		e2 := w.callExpr(c.Pair, from)
+		for i, v := range ps2 {
+			name := v[:strings.IndexByte(v, ' ')]
+			e2 = replaceIdent(e2, name, name+"_2")
+			ps2[i] = name + "_2" + v[strings.IndexByte(v, ' '):]
+		}
+		return fmt.Sprintf("func use%d(%s) {\n\t_, _ = %s, %s\n}\n", c.ID, strings.Join(append(ps, ps2...), ", "), expr, e2)
 	}
 	switch c.Form {
 	case 1:
